@@ -21,13 +21,15 @@ pub fn c06(ctx: &mut Ctx, tier: &str, seed: u64) {
     let t = tier_is_thorough(tier);
     let dom = dom_unix(tier, seed);
     for s in &dom {
+        let rp = format!("fname u {}", hex(s));
+        at(rp.clone());
+        let rp = format!("parent u {}", hex(s));
+        at(rp.clone());
         let p = UnixPath::new(s);
         let q = sp(s);
         let cs = comps(false, s);
         ctx.case(nontrivial_path(&cs), (s, 0u8));
         ctx.tally(&format!("ncomp={}", cs.len().min(8)));
-        let rp = format!("parent u {}", hex(s));
-        at(rp.clone());
         let (a, b) = (p.parent().map(|x| x.as_bytes()), q.parent().map(|x| x.as_os_str().as_bytes()));
         if a != b {
             ctx.fail("parent-vs-std", None, rp.clone(), format!("impl {} std {}", ob(a), ob(b)));
@@ -37,8 +39,6 @@ pub fn c06(ctx: &mut Ctx, tier: &str, seed: u64) {
         if ia != sa {
             ctx.fail("ancestors-vs-std", None, format!("anc u {}", hex(s)), format!("impl {:?} std {:?}", ia.iter().map(|x| lossy(x)).collect::<Vec<_>>(), sa.iter().map(|x| lossy(x)).collect::<Vec<_>>()));
         }
-        let rp = format!("fname u {}", hex(s));
-        at(rp.clone());
         let (a, b) = (p.file_name(), q.file_name().map(|x| x.as_bytes()));
         if a != b {
             ctx.fail("file_name-vs-std", None, rp.clone(), format!("impl {} std {}", ob(a), ob(b)));
@@ -55,10 +55,10 @@ pub fn c06(ctx: &mut Ctx, tier: &str, seed: u64) {
     let small = dom_unix_small(tier, seed);
     let pairs = gen::pairs_prefixy(&small, false, if t { 30 } else { 6 }, seed);
     for (a, b) in &pairs {
-        let (pa, pb) = (UnixPath::new(a), UnixPath::new(b));
-        let (qa, qb) = (sp(a), sp(b));
         let rp = format!("strip u {} {}", hex(a), hex(b));
         at(rp.clone());
+        let (pa, pb) = (UnixPath::new(a), UnixPath::new(b));
+        let (qa, qb) = (sp(a), sp(b));
         ctx.case(qa.starts_with(qb) && !std_comps(b).is_empty(), (a, b));
         ctx.tally(if qa.starts_with(qb) { "starts_with" } else if qa.ends_with(qb) { "ends_with" } else { "unrelated" });
         if pa.starts_with(pb) != qa.starts_with(qb) {
@@ -280,9 +280,9 @@ pub fn c09(ctx: &mut Ctx, tier: &str, seed: u64) {
         let e = gen::e(win);
         let dom = if win { dom_win(tier, seed) } else { dom_unix(tier, seed) };
         for s in &dom {
-            let cs = comps(win, s);
             let rp = format!("parent {} {}", e, hex(s));
             at(rp.clone());
+            let cs = comps(win, s);
             let expect_none = matches!(cs.last(), None | Some(SComp::Root) | Some(SComp::Prefix(_)));
             let par = parent_b(win, s);
             ctx.case(nontrivial_path(&cs), (win, s));
@@ -373,12 +373,12 @@ pub fn c10(ctx: &mut Ctx, tier: &str, seed: u64) {
         let small: Vec<Vec<u8>> = (if win { dom_win_small(tier, seed) } else { dom_unix_small(tier, seed) }).into_iter().filter(|s| well_formed(win, s)).collect();
         let pairs = gen::pairs_prefixy(&small, win, if t { 30 } else { 6 }, seed);
         for (p, q) in &pairs {
+            let rp = format!("strip {} {} {}", e, hex(p), hex(q));
+            at(rp.clone());
             if !well_formed(win, q) {
                 continue;
             }
             let (cp, cq) = (comps(win, p), comps(win, q));
-            let rp = format!("strip {} {} {}", e, hex(p), hex(q));
-            at(rp.clone());
             let (sw, ew, st): (bool, bool, Option<Vec<u8>>) = if win {
                 let (a, b) = (WindowsPath::new(p), WindowsPath::new(q));
                 (a.starts_with(b), a.ends_with(b), a.strip_prefix(b).ok().map(|r| r.as_bytes().to_vec()))
@@ -429,12 +429,12 @@ pub fn c10(ctx: &mut Ctx, tier: &str, seed: u64) {
             }
             let ca = comps(win, a);
             for b in &args {
+                let rp = format!("push {} {} {}", e, hex(a), hex(b));
+                at(rp.clone());
                 let cb = spec_comps(win, b);
                 if cb.iter().any(|c| matches!(c, SComp::Prefix(_) | SComp::Root)) {
                     continue;
                 }
-                let rp = format!("push {} {} {}", e, hex(a), hex(b));
-                at(rp.clone());
                 let j = push_b(win, a, b);
                 let (sw, st) = if win {
                     (WindowsPath::new(&j).starts_with(a), WindowsPath::new(&j).strip_prefix(a).ok().map(|r| r.as_bytes().to_vec()))
